@@ -9,6 +9,7 @@ CONSTANTS
   SharedPacker = ${SharedPacker}
   RearmGuard = ${RearmGuard}
   Rejected <- MCRejected
+  Unresolvable <- MCUnresolvable
   Keyed = ${Keyed}
 SPECIFICATION SpecE
 VIEW View
